@@ -5,6 +5,13 @@
 // Every EventLoop thread is GATED: exactly one of {controller (the thread reading stdin), loop threads} runs at
 // any time and the schedule is the input.  Gates (a loop thread stops there and waits for the controller):
 //     EventLoop::loop:beforePoll, EventLoop::doPendingFunctors:afterSwap, EventLoop::doPendingFunctors:functorDone
+// and, armed once by the op `holdHandover`, EventLoop::queueInLoop:appended: the BASE thread is parked right after it
+// appended a functor to the queue of ANOTHER loop while it dispatches a channel event (= inside the acceptor's
+// TcpServer::newConnection, immediately after the hand-over `ioLoop->runInLoop(connectEstablished)`, before wakeup() and
+// before any later statement of newConnection).  `step 0` / `iter 0` return when the base thread is parked there; the
+// io loops can then be advanced (the connection is theirs: connectEstablished, the peer's FIN, handleClose ..) while the
+// acceptor thread has not executed another instruction - a preemption at that point; the next `step 0` / `iter 0` lets
+// it go on.  With no io threads (L = 0) runInLoop runs inline, nothing is appended and the op has no effect.
 // `step l` = to the next gate, `iter l` = until parked at beforePoll again.  epoll_wait/poll of loop threads are
 // interposed (this TU) and never block (timeout 0).  A thread in FREE mode passes gates without stopping:
 //   * the base thread after the op `quit` (until it has left loop(), destroyed the server and its own loop);
@@ -75,7 +82,7 @@ static const int kGateSafetyS = 20;       // a loop thread that never comes back
 static thread_local int t_thr = -1;       // 0 base loop thread, 1..L io threads (thread-init order), -1 controller/other
 
 enum Phase { IDLE = 0, EVENT = 1, FUNCTORS = 2 };
-enum Gate { G_NONE = 0, G_BEFOREPOLL, G_AFTERSWAP, G_FUNCTORDONE };
+enum Gate { G_NONE = 0, G_BEFOREPOLL, G_AFTERSWAP, G_FUNCTORDONE, G_HANDOVER };
 
 struct LoopThread {
   sem_t go;
@@ -95,6 +102,7 @@ static LoopThread g_lt[kMaxLoops];
 static sem_t g_arrived;
 static int g_L = -1;                       // -1: no `server` op yet
 static std::atomic<int> g_inits(0);
+static std::atomic<int> g_holdHandover(0);  // armed by `holdHandover`: the base thread's next hand-over to an io loop parks it
 
 static std::recursive_mutex g_mu;          // output lines + every table below
 static std::vector<std::string> g_out;     // lines of the current op
@@ -258,6 +266,17 @@ static void pointHook(const char* name, const void* obj) {
   }
   if (t_thr < 0) return;
   LoopThread& s = g_lt[t_thr];
+  if (t_thr == 0 && obj != s.loop && s.phase == EVENT && strcmp(name, "EventLoop::queueInLoop:appended") == 0) {
+    // the acceptor's callback (TcpServer::newConnection) has just appended a functor to an io loop's queue
+    int armed = g_holdHandover.load();
+    if (armed > 0 && g_holdHandover.compare_exchange_strong(armed, armed - 1)) {
+      int k = -1;
+      for (int i = 1; i <= g_L; ++i) if (g_lt[i].loop == obj) k = i;
+      emitf("# held-after-handover l%d", k);
+      gate(s, G_HANDOVER);
+    }
+    return;
+  }
   if (strcmp(name, "EventLoopThread::threadFunc:loopReturned") == 0) {
     // threadFunc is about to return: the io thread's EventLoop object goes out of scope (on this thread)
     s.exited = true;
@@ -639,7 +658,7 @@ static void doOp(const std::vector<std::string>& w) {
   } else if (op == "iter" && w.size() == 2 && num(w[1], &a)) {
     settle("iter");
     if (a <= g_L) {
-      while (advance(a)) { if (g_lt[a].at.load() == G_BEFOREPOLL) break; }
+      while (advance(a)) { if (g_lt[a].at.load() == G_BEFOREPOLL || g_lt[a].at.load() == G_HANDOVER) break; }
     }
   } else if ((op == "forceClose" || op == "shutdown") && w.size() == 2 && num(w[1], &a)) {
     TcpConnectionPtr conn = lockConn(a);
@@ -655,6 +674,8 @@ static void doOp(const std::vector<std::string>& w) {
       g_conns[static_cast<size_t>(a)]->held.pop_back();
     }
     last.reset();      // the destructor may run here, on the controller thread
+  } else if (op == "holdHandover" && w.size() == 1) {
+    g_holdHandover.fetch_add(1);
   } else if (op == "postDestroy" && w.size() == 1) {
     if (baseRunning() && g_srv) g_base->queueInLoop(&destroyServerFunctor);
   } else if (op == "quit" && w.size() == 1) {
